@@ -19,4 +19,12 @@ for z in /usr/bin/z3 z3-new; do
   r=$( (cat prelude/prelude.smt2; echo "(check-sat)") | $z -in -T:10 smt.mbqi=false 2>&1 | head -1)
   if [ "$r" = "unsat" ]; then echo "setup: prelude is inconsistent according to $z" >&2; exit 1; fi
 done
+# the sequence axioms of the prelude are theorems about List Int (Lean 4 core, ~2 s)
+if command -v lean >/dev/null 2>&1; then
+  if ! lean prelude/Prelude.lean >/tmp/verif-lean.$$ 2>&1; then
+    echo "setup: prelude/Prelude.lean does not check:" >&2; head -20 /tmp/verif-lean.$$ >&2; rm -f /tmp/verif-lean.$$; exit 1
+  fi
+  rm -f /tmp/verif-lean.$$
+  if grep -v "^ *Check:" prelude/Prelude.lean | grep -qw sorry; then echo "setup: Prelude.lean contains sorry" >&2; exit 1; fi
+fi
 echo "setup ok"
